@@ -73,6 +73,7 @@ C14_Accept(c, trk, call, o) ==
          LET H == HeaderByName(call.h) IN AcceptRefFromSlice(H, Len(c.mem), Al(c), Declared(c, H), o)
     [] call.op = "bytes_ref" ->
          AcceptBytesRef(HeaderByName(call.h), Len(c.mem), Al(c), o)
+    [] call.op = "round8" -> IsVal(o, U32Bytes(RoundUp8(LE4(call.n))) \o <<0, 0, 0, 0>>)
     [] OTHER -> TRUE
 
 \* ---- C02 ---------------------------------------------------------------------------
@@ -539,6 +540,8 @@ DesignStep(c, ds, call) ==
          [o |-> DesignRefFromSlice(H, Len(c.mem), Al(c), Declared(c, H)), ds |-> ds]
     [] call.op = "bytes_ref" ->
          [o |-> BytesRefSpec(HeaderByName(call.h), Len(c.mem), Al(c)), ds |-> ds]
+    [] call.op = "round8" ->       \* increase_to_alignment: (n + 7) with the low three bits cleared
+         LET n == LE4(call.n) IN [o |-> Val(U32Bytes((n + 7) - ((n + 7) % 8)) \o <<0, 0, 0, 0>>), ds |-> ds]
     [] call.op = "load" ->
          LET r == DesignLoad(IsNull(call), c.mem) IN
          [o |-> r, ds |-> [ds EXCEPT !.loaded = IF r.k = "ok" THEN "bi" ELSE "none"]]
